@@ -22,6 +22,18 @@ for _st in (sys.stdout, sys.stderr):
 import lib  # noqa: E402
 
 
+def _watchdog(tier):
+    """A check that does not finish within its budget is an internal error (exit 2), never a verdict."""
+    import signal
+
+    def on_alarm(signum, frame):
+        print("INTERNAL-ERROR time budget exceeded (exit 2; not a verdict)", flush=True)
+        os._exit(2)
+
+    signal.signal(signal.SIGALRM, on_alarm)
+    signal.alarm(int(os.environ.get("VERIF_TIMEOUT", "1500" if tier == "quick" else "20000")))
+
+
 def main():
     if len(sys.argv) >= 2 and sys.argv[1] == "replay":
         path = sys.argv[2]
@@ -34,12 +46,13 @@ def main():
     ap.add_argument("--tier", default=os.environ.get("VERIF_TIER", "quick"), choices=["quick", "thorough"])
     a = ap.parse_args()
     seed = int(os.environ.get("VERIF_SEED", "1"))
+    _watchdog(a.tier)
     ctx = lib.Ctx(a.pid, a.tier, seed)
     try:
         mod = importlib.import_module("checks." + a.pid.lower())
         mod.run(ctx)
         rc = ctx.finish(level="proof")
-    except Exception:
+    except (Exception, MemoryError):
         traceback.print_exc()
         print(f"INTERNAL-ERROR property={a.pid} (exit 2; not a verdict)")
         sys.exit(2)
